@@ -159,6 +159,9 @@ class C12Dst(DstWorld):
                 nsent = sum(e[2] for e in self.segs if repr(e) in m["sent"])
                 evs.append(("eof", nsent, "CANCEL_REQUEST_RECEIVED", 1))
                 evs.append(("eof", nsent, "POSITIVE_ACK_LIMIT_REACHED", 1))
+        if m["eof_seen"] and self.c["mode"] == "unack" and st.D.h.states.step.name == "RECV_FILE_DATA_WITH_CHECK_LIMIT_HANDLING" and m["cancel"] is None:
+            # the sender cancels after its EOF (no error) while the receiver still waits for late data
+            evs.append(("eof", self.c["size"], "CANCEL_REQUEST_RECEIVED", 1))
         if st.D.h.states.step.name == "WAITING_FOR_FINISHED_ACK":
             evs.append(("ackfin",))
         if m["ncancel"] < 2:
@@ -182,9 +185,9 @@ class C12Dst(DstWorld):
         if ev[0] in ("fd", "eof") and not self.exc(out) and st.D.h.state.name == "BUSY":
             m["active"] = True
         if ev[0] == "eof" and not self.exc(out):
-            if self.inds(out, "eof_recv") or out["pre_step"] in ("RECEIVING_FILE_DATA", "IDLE", "WAITING_FOR_METADATA"):
+            if self.inds(out, "eof_recv") or out["pre_step"] in ("RECEIVING_FILE_DATA", "IDLE", "WAITING_FOR_METADATA", "RECV_FILE_DATA_WITH_CHECK_LIMIT_HANDLING"):
                 m["eof_seen"] = True
-                if ev[2] != "NO_ERROR" and out["pre_step"] == "RECEIVING_FILE_DATA":
+                if ev[2] != "NO_ERROR" and out["pre_step"] in ("RECEIVING_FILE_DATA", "RECV_FILE_DATA_WITH_CHECK_LIMIT_HANDLING"):
                     m["causes"] = min(2, m["causes"] + 1)
                     if m["cancel"] is None:
                         m["cancel"] = ["eof", ev[2]]
